@@ -316,14 +316,24 @@ func (sc *scen) challenge(key types.PrivateKey, id types.FileContractID, absID u
 	return sig, fmt.Sprintf("(Sig %d (MChal %d %d))", k, absID, rn)
 }
 
-// target picks the contract a request names: the current one, or an id the host
-// does not know.
-func (sc *scen) target(mut string) (*ctr, types.FileContractID, uint64, types.PrivateKey) {
+// target picks the contract a request names: the current one, an id the host does
+// not know, or a contract that has already been renewed.
+func (sc *scen) target(mut *string) (*ctr, types.FileContractID, uint64, types.PrivateKey) {
 	ct := sc.cur
-	if mut == "unknown-cid" {
+	switch *mut {
+	case "unknown-cid":
 		var id types.FileContractID
 		sc.r.Bytes(id[:])
 		return nil, id, 888, sc.rkey
+	case "renewed-cid":
+		// a contract of this renter that has been renewed or refreshed (the newest such)
+		for i := len(sc.cts) - 1; i >= 0; i-- {
+			if sc.cts[i].renewed {
+				c := sc.cts[i]
+				return c, c.id, c.abs, c.key
+			}
+		}
+		*mut = "none"
 	}
 	return ct, ct.id, ct.abs, ct.key
 }
